@@ -44,12 +44,34 @@
 // read-only library code: part of whatever phase (Work, Handlers) surrounds the call.
 //
 // Markers: Work is a call of the method `recompute` or of `parallelBatch` (the recompute
-// loop of Stabilize; parallelStabilize's batches); Handlers is a loop over
-// `handleAfterStabilization` (stabilizeEndRunUpdateHandlers).
+// loop of Stabilize; parallelStabilize's batches, and its direct calls of the worker
+// closure); Handlers is a loop over one of the places user code other than node functions
+// is kept: `handleAfterStabilization` (update handlers), `errorHandlers()`,
+// `abortedHandlers()`, `onStabilizationStart`, `onStabilizationEnd` -- wherever the execution
+// meets such a loop, e.g. inside recomputePanicked or handleStabilizationError.
 //
-// Independently of the Coq development, the extracted program is also model-checked here
-// (every interleaving of two threads, breadth first) for two threads inside Work/Handlers
-// at once; a hit is reported as a C19 violation with the shortest schedule.
+// Panics.  Wherever user code runs (every Work and every Handlers step) the execution also
+// follows the path on which that code panics (at most two panics per path): the rest of the
+// function is skipped, the deferred calls of every frame run last-registered-first with the
+// panic in flight, `recover()` called directly by a deferred function stops it and yields a
+// non-nil value (nil otherwise), an unrecovered panic leaves the call.  The ordinary paths
+// are folded into one program per entry point as described above; every panicking path
+// becomes a program OF ITS OWN (`extracted_*_panic_paths`), because it may skip operations
+// the ordinary path performs (a panicking end handler skips `Store 2`) and so cannot be
+// folded in.  Status.v's theorem C19_mutex_path_set is about exactly that: each call takes
+// any of a set of paths, and every path must satisfy both hypotheses ([good_path]) -- in
+// particular `releases_last`: nothing, no Work and no Handlers either, follows the releasing
+// `Store 0`.  A recover block that is registered before the defer that releases the word
+// runs after it, and the error/aborted handlers it reaches show up as a Handlers step
+// behind `Store 0`.  A panicking path that ends with the word still claimed (a panic in a
+// stabilization-start handler escapes before any defer is registered) cannot break mutual
+// exclusion -- nobody gets in any more --; it is modelled as a thread that stalls before an
+// added final release and reported as a note.
+//
+// Independently of the Coq development, the extracted programs are also model-checked here:
+// caller 0 on any extracted path, caller 1 on an ordinary one, every interleaving, breadth
+// first, for both inside Work/Handlers at once; a hit is reported as a C19 violation with
+// the shortest schedule.
 package main
 
 import (
@@ -112,6 +134,20 @@ const (
 )
 
 var workCallees = map[string]bool{"recompute": true, "parallelBatch": true}
+
+// userCodeSources: ranging over one of these calls user code outside node computations --
+// update handlers, error / aborted handlers of a node, the graph's stabilization start / end
+// handlers.  Each such loop is a Handlers step.
+var userCodeSources = []string{handlersField, "errorHandlers", "abortedHandlers", "onStabilizationEnd", "onStabilizationStart"}
+
+func userCodeRange(x ast.Node) bool {
+	for _, name := range userCodeSources {
+		if mentions(x, name) {
+			return true
+		}
+	}
+	return false
+}
 
 func recvTypeName(fd *ast.FuncDecl) (typ, name string) {
 	if fd.Recv == nil || len(fd.Recv.List) == 0 {
@@ -268,7 +304,7 @@ func loadPackage(dir string, must []string) *pkgInfo {
 					callees[k] = append(callees[k], ck)
 				}
 			case *ast.RangeStmt:
-				if mentions(x.X, handlersField) {
+				if userCodeRange(x.X) {
 					direct[k] = true
 				}
 			}
@@ -480,7 +516,7 @@ func (p *pkgInfo) touches(n ast.Node, file *ast.File, recvType, recvName string)
 				found = true
 			}
 		case *ast.RangeStmt:
-			if mentions(x.X, handlersField) {
+			if userCodeRange(x.X) {
 				found = true
 			}
 		}
@@ -501,6 +537,7 @@ const (
 	kErrBusy
 	kErrOther
 	kClosure
+	kNotNil // what recover() hands back while a panic is in flight
 )
 
 type val struct {
@@ -527,6 +564,8 @@ func (v val) String() string {
 		return "err"
 	case kClosure:
 		return fmt.Sprintf("fn@%d", v.lit.Pos())
+	case kNotNil:
+		return "notnil"
 	}
 	return "?"
 }
@@ -570,7 +609,12 @@ const (
 	ctrlReturn
 	ctrlBreak
 	ctrlContinue
+	ctrlPanic // a panic is unwinding through the statements of the current function
 )
+
+// maxFaults bounds how many panics are injected on one path (a panic in a node function,
+// then one in a handler reached while recovering from it).
+const maxFaults = 2
 
 type activation struct {
 	decl    *ast.FuncDecl // enclosing declaration (receiver name, file)
@@ -578,6 +622,11 @@ type activation struct {
 	defers  []deferred
 	named   []string // named results
 	retvals []val
+	// deferredCall: this activation is a function called directly by a defer statement (only
+	// there does recover() stop a panic); unwinding: this activation's own statements ended in
+	// a panic (or one of its deferred calls panicked) and it has not been recovered yet
+	deferredCall bool
+	unwinding    bool
 }
 
 type state struct {
@@ -587,10 +636,16 @@ type state struct {
 	acts   []activation
 	events []event
 	ctrl   ctrlKind
+	// panicking: a panic is in flight (deferred functions are being run because of it);
+	// faults: how many panics were injected on this path; pendingDeferred: position of the
+	// deferred call that is about to be entered
+	panicking       bool
+	faults          int
+	pendingDeferred token.Pos
 }
 
 func (st *state) clone() *state {
-	c := &state{ctrl: st.ctrl, nextID: st.nextID}
+	c := &state{ctrl: st.ctrl, nextID: st.nextID, panicking: st.panicking, faults: st.faults, pendingDeferred: st.pendingDeferred}
 	c.envIDs = append([]int(nil), st.envIDs...)
 	c.envs = make([]map[string]val, len(st.envs))
 	for i, m := range st.envs {
@@ -636,9 +691,9 @@ func (st *state) key() string {
 		for _, r := range a.retvals {
 			fmt.Fprintf(&b, "r%s,", r)
 		}
-		b.WriteString("/")
+		fmt.Fprintf(&b, "%v%v/", a.deferredCall, a.unwinding)
 	}
-	fmt.Fprintf(&b, "|%d", st.ctrl)
+	fmt.Fprintf(&b, "|%d|%v|%d", st.ctrl, st.panicking, st.faults)
 	return b.String()
 }
 
@@ -741,6 +796,10 @@ func (x *executor) callBody(st *state, decl *ast.FuncDecl, typ *ast.FuncType, bo
 		envIdx = len(st.envs) - 1
 	}
 	act := activation{decl: decl, env: envIdx}
+	if st.pendingDeferred.IsValid() && st.pendingDeferred == pos {
+		act.deferredCall = true
+		st.pendingDeferred = token.NoPos
+	}
 	pnames, _ := fieldNames(typ.Params)
 	for i, n := range pnames {
 		if n == "" || n == "_" {
@@ -770,8 +829,12 @@ func (x *executor) callBody(st *state, decl *ast.FuncDecl, typ *ast.FuncType, bo
 		if s.ctrl == ctrlBreak || s.ctrl == ctrlContinue {
 			fail(body.Pos(), "break/continue escapes a function body")
 		}
+		if s.ctrl == ctrlPanic {
+			s.panicking = true
+			s.acts[depthActs-1].unwinding = true
+		}
 		s.ctrl = ctrlNone
-		// deferred calls, last registered first
+		// deferred calls, last registered first -- on a normal return and during a panic alike
 		states := []*state{s}
 		for {
 			var next []*state
@@ -785,7 +848,13 @@ func (x *executor) callBody(st *state, decl *ast.FuncDecl, typ *ast.FuncType, bo
 				progressed = true
 				d := a.defers[len(a.defers)-1]
 				a.defers = a.defers[:len(a.defers)-1]
+				s2.pendingDeferred = d.call.Pos()
 				for _, r := range x.evalCall(s2, d.call) {
+					r.st.pendingDeferred = token.NoPos
+					if r.st.ctrl == ctrlPanic { // the deferred function itself panicked
+						r.st.panicking = true
+						r.st.acts[depthActs-1].unwinding = true
+					}
 					r.st.ctrl = ctrlNone
 					next = append(next, r.st)
 				}
@@ -808,6 +877,9 @@ func (x *executor) callBody(st *state, decl *ast.FuncDecl, typ *ast.FuncType, bo
 				for i := 0; i < nres; i++ {
 					vs = append(vs, unknown)
 				}
+			}
+			if a.unwinding && s2.panicking {
+				s2.ctrl = ctrlPanic // not recovered: the panic goes on into the caller
 			}
 			s2.acts = s2.acts[:depthActs-1]
 			if !sameEnv {
@@ -858,6 +930,9 @@ func (x *executor) assign(st *state, lhs ast.Expr, v val, define bool) {
 }
 
 func (x *executor) execStmt(st *state, stmt ast.Stmt) []*state {
+	if st.ctrl != ctrlNone {
+		return []*state{st}
+	}
 	switch s := stmt.(type) {
 	case nil, *ast.EmptyStmt:
 		return []*state{st}
@@ -890,6 +965,10 @@ func (x *executor) execStmt(st *state, stmt ast.Stmt) []*state {
 					continue
 				}
 				for _, r := range x.evalExprs(c, vs.Values) {
+					if r.st.ctrl == ctrlPanic {
+						next = append(next, r.st)
+						continue
+					}
 					for i, n := range vs.Names {
 						v := unknown
 						if len(r.vs) == len(vs.Names) {
@@ -906,6 +985,10 @@ func (x *executor) execStmt(st *state, stmt ast.Stmt) []*state {
 	case *ast.AssignStmt:
 		var out []*state
 		for _, r := range x.evalExprs(st, s.Rhs) {
+			if r.st.ctrl == ctrlPanic { // the assignment does not happen
+				out = append(out, r.st)
+				continue
+			}
 			for i, l := range s.Lhs {
 				v := unknown
 				if s.Tok == token.ASSIGN || s.Tok == token.DEFINE {
@@ -931,6 +1014,9 @@ func (x *executor) execStmt(st *state, stmt ast.Stmt) []*state {
 			cur = states(x.evalExprs(st, s.Call.Args))
 		}
 		for _, c := range cur {
+			if c.ctrl == ctrlPanic {
+				continue
+			}
 			a := c.act()
 			a.defers = append(a.defers, deferred{s.Call, a.env})
 		}
@@ -938,6 +1024,10 @@ func (x *executor) execStmt(st *state, stmt ast.Stmt) []*state {
 	case *ast.ReturnStmt:
 		var out []*state
 		for _, r := range x.evalExprs(st, s.Results) {
+			if r.st.ctrl == ctrlPanic {
+				out = append(out, r.st)
+				continue
+			}
 			a := r.st.act()
 			if len(s.Results) > 0 {
 				a.retvals = r.vs
@@ -972,6 +1062,10 @@ func (x *executor) execStmt(st *state, stmt ast.Stmt) []*state {
 				continue
 			}
 			for _, r := range x.evalExpr(s0, s.Cond) {
+				if r.st.ctrl == ctrlPanic {
+					out = append(out, r.st)
+					continue
+				}
 				c := r.v()
 				takeThen := c.k != kBool || c.n != 0
 				takeElse := c.k != kBool || c.n == 0
@@ -1006,8 +1100,15 @@ func (x *executor) execStmt(st *state, stmt ast.Stmt) []*state {
 	case *ast.RangeStmt:
 		var out []*state
 		for _, r := range x.evalExpr(st, s.X) {
-			if mentions(s.X, handlersField) {
+			if r.st.ctrl == ctrlPanic {
+				out = append(out, r.st)
+				continue
+			}
+			if userCodeRange(s.X) {
 				r.st.emit(event{kind: "handlers", pos: s.Pos()})
+				if p := x.panicHere(r.st); p != nil { // the user code called by this loop panics
+					out = append(out, p)
+				}
 			}
 			out = append(out, x.loop(r.st, s, nil, nil, s.Body, true)...)
 		}
@@ -1143,6 +1244,18 @@ func (x *executor) loop(st *state, node ast.Node, cond ast.Expr, post ast.Stmt, 
 	return dedupe(out)
 }
 
+// panicHere returns the state in which the user code just entered (a node function, a
+// handler) panics, or nil when no further panic is injected on this path.
+func (x *executor) panicHere(st *state) *state {
+	if st.faults >= maxFaults || st.panicking {
+		return nil
+	}
+	p := st.clone()
+	p.faults++
+	p.ctrl = ctrlPanic
+	return p
+}
+
 func (x *executor) evalExprs(st *state, es []ast.Expr) []res {
 	cur := []res{{st, nil}}
 	for _, e := range es {
@@ -1164,6 +1277,9 @@ func (x *executor) evalExprs(st *state, es []ast.Expr) []res {
 func one(st *state, v val) []res { return []res{{st, []val{v}}} }
 
 func (x *executor) evalExpr(st *state, e ast.Expr) []res {
+	if st.ctrl == ctrlPanic { // nothing more is evaluated once a panic is on its way
+		return one(st, unknown)
+	}
 	switch t := e.(type) {
 	case nil:
 		return one(st, unknown)
@@ -1276,7 +1392,7 @@ func (x *executor) unknownOf(st *state, es ...ast.Expr) []res {
 	return out
 }
 
-func isErr(v val) bool { return v.k == kErrBusy || v.k == kErrOther }
+func isErr(v val) bool { return v.k == kErrBusy || v.k == kErrOther || v.k == kNotNil }
 
 func binop(op token.Token, a, b val) val {
 	switch op {
@@ -1348,7 +1464,20 @@ func (x *executor) intArg(r res, i int, e ast.Expr) int64 {
 }
 
 func (x *executor) evalCall(st *state, call *ast.CallExpr) []res {
+	if st.ctrl == ctrlPanic {
+		return one(st, unknown)
+	}
 	file := x.file(st)
+	// 0. recover(): stops the panic in flight when called directly by a deferred function
+	if id, ok := call.Fun.(*ast.Ident); ok && id.Name == "recover" && len(call.Args) == 0 {
+		if _, shadowed := st.env()["recover"]; !shadowed {
+			if st.panicking && st.act().deferredCall {
+				st.panicking = false
+				return one(st, val{k: kNotNil})
+			}
+			return one(st, val{k: kNil})
+		}
+	}
 	// 1. an atomic operation on the word
 	if kind, args := x.p.statusOp(file, call); kind != "" {
 		x.visited[call.Pos()] = true
@@ -1362,11 +1491,19 @@ func (x *executor) evalCall(st *state, call *ast.CallExpr) []res {
 			}
 		case "store":
 			for _, r := range x.evalExprs(st, args) {
+				if r.st.ctrl == ctrlPanic {
+					out = append(out, r)
+					continue
+				}
 				r.st.emit(event{kind: "store", a: x.intArg(r, 0, args[0]), pos: call.Pos()})
 				out = append(out, res{r.st, nil})
 			}
 		case "cas":
 			for _, r := range x.evalExprs(st, args) {
+				if r.st.ctrl == ctrlPanic {
+					out = append(out, r)
+					continue
+				}
 				a, b := x.intArg(r, 0, args[0]), x.intArg(r, 1, args[1])
 				ok, ko := r.st, r.st.clone()
 				ok.emit(event{kind: "casok", a: a, b: b, pos: call.Pos()})
@@ -1380,7 +1517,14 @@ func (x *executor) evalCall(st *state, call *ast.CallExpr) []res {
 	if isWorkCall(call) {
 		var out []res
 		for _, r := range x.evalArgs(st, call) {
+			if r.st.ctrl == ctrlPanic {
+				out = append(out, r)
+				continue
+			}
 			r.st.emit(event{kind: "work", pos: call.Pos()})
+			if p := x.panicHere(r.st); p != nil { // a node function panics
+				out = append(out, res{p, []val{unknown}})
+			}
 			out = append(out, res{r.st, []val{unknown}})
 		}
 		return out
@@ -1389,6 +1533,10 @@ func (x *executor) evalCall(st *state, call *ast.CallExpr) []res {
 	if lit, ok := call.Fun.(*ast.FuncLit); ok {
 		var out []res
 		for _, r := range x.evalExprs(st, call.Args) {
+			if r.st.ctrl == ctrlPanic {
+				out = append(out, r)
+				continue
+			}
 			out = append(out, x.callBody(r.st, r.st.act().decl, lit.Type, lit.Body, r.vs, r.st.act().env, call.Pos())...)
 		}
 		return out
@@ -1400,6 +1548,10 @@ func (x *executor) evalCall(st *state, call *ast.CallExpr) []res {
 		if x.p.reach[k] && fd.Body != nil {
 			var out []res
 			for _, r := range x.evalExprs(st, call.Args) {
+				if r.st.ctrl == ctrlPanic {
+					out = append(out, r)
+					continue
+				}
 				args := r.vs
 				if len(call.Args) == 1 && len(args) != 1 {
 					args = nil
@@ -1430,6 +1582,10 @@ func (x *executor) evalCall(st *state, call *ast.CallExpr) []res {
 			if envIdx >= 0 {
 				var out []res
 				for _, r := range x.evalExprs(st, call.Args) {
+					if r.st.ctrl == ctrlPanic {
+						out = append(out, r)
+						continue
+					}
 					args := r.vs
 					if len(call.Args) == 1 && len(args) != 1 {
 						args = nil
@@ -1498,8 +1654,10 @@ func (x *executor) opaque(st *state, call *ast.CallExpr, nres int) []res {
 // ------------------------------------------------------------------ from paths to one program
 
 type path struct {
-	events []event
-	ret    val
+	events  []event
+	ret     val
+	faults  int  // panics injected on the way
+	escaped bool // the call ends with the panic still in flight
 }
 
 type action struct {
@@ -1574,7 +1732,7 @@ func pathString(p path) string {
 }
 
 // fold turns the set of status-touching paths of one entry point into one program.
-func fold(fn string, paths []path) []action {
+func fold(fn string, paths []path, exitLoads map[token.Pos]bool) []action {
 	var prog []action
 	group := paths
 	i := 0
@@ -1694,6 +1852,7 @@ func fold(fn string, paths []path) []action {
 					}
 				}
 				prog = append(prog, action{Kind: "ExitIfBusy", At: where(first.pos)})
+				exitLoads[first.pos] = true
 			}
 			group = zero
 		default: // cas
@@ -1729,23 +1888,26 @@ func fold(fn string, paths []path) []action {
 
 // ------------------------------------------------------------------ an independent check
 
-// overlapSchedule explores every interleaving of `threads` threads running prog again and
-// again (breadth first over the finite state space) and returns the shortest schedule
-// after which two threads are at a Work/Handlers action, or nil.
-func overlapSchedule(prog []action, threads int) []int {
+// overlapSchedule explores every interleaving of two calls, the first following path pa
+// and the second path pb, each thread running its path again and again (breadth first over
+// the finite state space), and returns the shortest schedule after which both are at a
+// Work/Handlers action, or nil.  It is independent of the Coq development.
+func overlapSchedule(pa, pb []action) []int {
 	type tstate struct {
 		pc  int
 		loc int64
 	}
 	type sys struct {
 		status int64
-		ts     [3]tstate
+		ts     [2]tstate
 	}
-	if threads > 3 || len(prog) == 0 {
+	if len(pa) == 0 || len(pb) == 0 {
 		return nil
 	}
-	atWork := func(t tstate) bool { k := prog[t.pc].Kind; return k == "Work" || k == "Handlers" }
+	progs := [2][]action{pa, pb}
+	atWork := func(i int, t tstate) bool { k := progs[i][t.pc].Kind; return k == "Work" || k == "Handlers" }
 	step := func(s sys, i int) sys {
+		prog := progs[i]
 		t := s.ts[i]
 		adv := func() {
 			t.pc++
@@ -1789,20 +1951,14 @@ func overlapSchedule(prog []action, threads int) []int {
 	for len(queue) > 0 {
 		s := queue[0]
 		queue = queue[1:]
-		n := 0
-		for i := 0; i < threads; i++ {
-			if atWork(s.ts[i]) {
-				n++
-			}
-		}
-		if n >= 2 {
+		if atWork(0, s.ts[0]) && atWork(1, s.ts[1]) {
 			var sched []int
 			for cur := s; from[cur].by >= 0; cur = from[cur].prev {
 				sched = append([]int{from[cur].by}, sched...)
 			}
 			return sched
 		}
-		for i := 0; i < threads; i++ {
+		for i := 0; i < 2; i++ {
 			nx := step(s, i)
 			if _, seen := from[nx]; !seen {
 				from[nx] = link{s, i}
@@ -1815,7 +1971,74 @@ func overlapSchedule(prog []action, threads int) []int {
 
 // ------------------------------------------------------------------ main
 
-func extract(p *pkgInfo, x *executor, recvType, fn string) ([]action, int, int) {
+// faultPath is one path of a call on which a node function or a handler panicked, as a
+// straight-line program of its own.
+type faultPath struct {
+	Func    string   `json:"func"`
+	Program []action `json:"program"`
+	Text    string   `json:"text"`
+	Faults  int      `json:"panics"`
+	Escaped bool     `json:"panic_escapes_the_call"`
+	Stalls  bool     `json:"never_releases"` // ends with the word still claimed; a final Store 0 is added (a thread that stalls)
+}
+
+type extraction struct {
+	prog   []action
+	faults []faultPath
+	paths  int
+	kept   int
+	notes  []string
+}
+
+// pathProgram turns one path into a program: a load is followed by ExitIfBusy where the
+// folded ordinary program has one at that load.
+func pathProgram(pth path, exitLoads map[token.Pos]bool) (prog []action, lastWrite int64, wrote bool) {
+	for _, e := range pth.events {
+		switch e.kind {
+		case "load":
+			prog = append(prog, action{Kind: "Load", At: where(e.pos)})
+			if exitLoads[e.pos] {
+				prog = append(prog, action{Kind: "ExitIfBusy", At: where(e.pos)})
+			}
+		case "casok":
+			prog = append(prog, action{Kind: "Cas", A: e.a, B: e.b, At: where(e.pos)})
+			lastWrite, wrote = e.b, true
+		case "store":
+			prog = append(prog, action{Kind: "Store", A: e.a, At: where(e.pos)})
+			lastWrite, wrote = e.a, true
+		case "work":
+			prog = append(prog, action{Kind: "Work", At: where(e.pos)})
+		case "handlers":
+			prog = append(prog, action{Kind: "Handlers", At: where(e.pos)})
+		}
+	}
+	return
+}
+
+func sameStatusOps(a, b []action) bool {
+	strip := func(p []action) string {
+		var parts []string
+		for _, x := range p {
+			if x.Kind != "Work" && x.Kind != "Handlers" {
+				parts = append(parts, x.coq())
+			}
+		}
+		return strings.Join(parts, ";")
+	}
+	return strip(a) == strip(b)
+}
+
+func markerSubsequence(a, b []action) bool { // a's actions appear in b in order
+	i := 0
+	for _, x := range b {
+		if i < len(a) && a[i].coq() == x.coq() {
+			i++
+		}
+	}
+	return i == len(a)
+}
+
+func extract(p *pkgInfo, x *executor, recvType, fn string) extraction {
 	fd := p.funcs[funcKey{recvType, fn}]
 	if fd == nil || fd.Body == nil {
 		fail(token.NoPos, "method %s.%s not found", recvType, fn)
@@ -1829,36 +2052,40 @@ func extract(p *pkgInfo, x *executor, recvType, fn string) ([]action, int, int) 
 	}
 	rs := x.callBody(st, fd, fd.Type, fd.Body, args, -1, fd.Pos())
 	seen := map[string]bool{}
-	var touching []path
-	untouched := 0
+	var touching, faulty []path
 	for _, r := range rs {
 		ret := unknown
-		for i, v := range r.vs { // the error result
-			_ = i
+		for _, v := range r.vs { // the error result
 			if v.k == kErrBusy || v.k == kNil || v.k == kErrOther {
 				ret = v
 			}
 		}
-		pth := path{events: r.st.events, ret: ret}
+		pth := path{events: r.st.events, ret: ret, faults: r.st.faults, escaped: r.st.ctrl == ctrlPanic}
 		if len(statusEvents(pth)) == 0 {
 			for _, e := range pth.events {
 				fail(e.pos, "%s: a path runs %s without any operation on the status word", fn, e.kind)
 			}
-			untouched++
 			continue
 		}
-		k := pathString(pth)
-		if !seen[k] {
-			seen[k] = true
+		k := fmt.Sprintf("%s|%d|%v", pathString(pth), pth.faults, pth.escaped)
+		if seen[k] {
+			continue
+		}
+		seen[k] = true
+		if pth.faults > 0 {
+			faulty = append(faulty, pth)
+		} else {
 			touching = append(touching, pth)
 		}
 	}
 	if len(touching) == 0 {
 		fail(fd.Pos(), "%s never touches the status word", fn)
 	}
-	prog := fold(fn, touching)
+	out := extraction{paths: len(rs), kept: len(touching) + len(faulty)}
+	exitLoads := map[token.Pos]bool{}
+	out.prog = fold(fn, touching, exitLoads)
 	haveWork, haveHandlers := false, false
-	for _, a := range prog {
+	for _, a := range out.prog {
 		haveWork = haveWork || a.Kind == "Work"
 		haveHandlers = haveHandlers || a.Kind == "Handlers"
 	}
@@ -1868,7 +2095,42 @@ func extract(p *pkgInfo, x *executor, recvType, fn string) ([]action, int, int) 
 	if !haveHandlers {
 		fail(fd.Pos(), "%s: could not locate where update handlers run (no loop over %s on the way)", fn, handlersField)
 	}
-	return prog, len(rs), len(touching)
+	// the panicking paths, each a program of its own
+	seenProg := map[string]bool{}
+	sort.SliceStable(faulty, func(i, j int) bool { // of equal programs keep the one with fewer panics, recovered first
+		if faulty[i].faults != faulty[j].faults {
+			return faulty[i].faults < faulty[j].faults
+		}
+		return !faulty[i].escaped && faulty[j].escaped
+	})
+	for _, pth := range faulty {
+		prog, last, wrote := pathProgram(pth, exitLoads)
+		fp := faultPath{Func: fn, Faults: pth.faults, Escaped: pth.escaped}
+		if wrote && last != 0 {
+			// the call ends with the word still claimed: nobody else can ever get in.  For
+			// mutual exclusion that is a thread which stalls for ever before its release.
+			fp.Stalls = true
+			prog = append(prog, action{Kind: "Store", A: 0, At: "never: the path ends with the word still claimed"})
+		}
+		fp.Program, fp.Text = prog, coqList(prog)
+		if seenProg[fp.Text] {
+			continue
+		}
+		seenProg[fp.Text] = true
+		if fp.Stalls {
+			how := "returns"
+			if fp.Escaped {
+				how = "panics out of the call"
+			}
+			out.notes = append(out.notes, fmt.Sprintf("%s: a path on which user code panics %s with the status word still claimed (%s): no later pass can ever run -- "+
+				"a liveness matter, not mutual exclusion; modelled as a thread that stalls before a final release", fn, how, coqList(prog[:len(prog)-1])))
+		}
+		if !fp.Stalls && sameStatusOps(prog, out.prog) && markerSubsequence(prog, out.prog) {
+			continue // says nothing the ordinary program does not say
+		}
+		out.faults = append(out.faults, fp)
+	}
+	return out
 }
 
 func coqList(prog []action) string {
@@ -1901,25 +2163,34 @@ func main() {
 	p := loadPackage(*repo, []string{"graph.go", "stabilize.go", "parallel_stabilize.go"})
 	x := &executor{p: p, visited: map[token.Pos]bool{}}
 	type entry struct {
-		Func    string   `json:"func"`
-		Coq     string   `json:"coq_name"`
-		Program []action `json:"program"`
-		Text    string   `json:"text"`
-		Paths   int      `json:"paths"`
-		Kept    int      `json:"status_touching_paths"`
+		Func    string      `json:"func"`
+		Coq     string      `json:"coq_name"`
+		Program []action    `json:"program"`
+		Text    string      `json:"text"`
+		Paths   int         `json:"paths"`
+		Kept    int         `json:"status_touching_paths"`
+		Faults  []faultPath `json:"panicking_paths"`
 	}
 	entries := []*entry{{Func: "Stabilize", Coq: "extracted_stabilize"}, {Func: "ParallelStabilize", Coq: "extracted_parallel"}}
 	for _, e := range entries {
-		e.Program, e.Paths, e.Kept = extract(p, x, "Graph", e.Func)
+		ex := extract(p, x, "Graph", e.Func)
+		e.Program, e.Paths, e.Kept, e.Faults = ex.prog, ex.paths, ex.kept, ex.faults
 		e.Text = coqList(e.Program)
 		rep.Evaluations += e.Paths
 		rep.Distinct += e.Kept
 		rep.Sizes["paths-"+e.Func] = e.Paths
 		rep.Sizes["actions-"+e.Func] = len(e.Program)
+		rep.Sizes["panicking-path-programs-"+e.Func] = len(e.Faults)
 		for _, a := range e.Program {
 			rep.Count(a.Kind)
 		}
+		rep.Notes = append(rep.Notes, ex.notes...)
 		rep.Samples = append(rep.Samples, e)
+	}
+	for _, e := range entries { // shown by bin/check next to the ordinary programs
+		for i, f := range e.Faults {
+			rep.Samples = append(rep.Samples, map[string]any{"func": fmt.Sprintf("%s (path %d on which user code panics)", e.Func, i+1), "text": f.Text})
+		}
 	}
 	// every atomic write of the word in the package must belong to the extracted protocol
 	var stray []string
@@ -1940,20 +2211,67 @@ func main() {
 	}
 	sort.Strings(otherLoads)
 	rep.Notes = append(rep.Notes, "atomic loads of the status word outside the protocol (read-only, allowed): "+strings.Join(otherLoads, ", "))
-	rep.Rule = "symbolic execution of Graph.Stabilize and Graph.ParallelStabilize over go/ast with inlining; evaluations = paths explored, " +
-		"distinct = distinct paths that touch the status word (folded into one program per entry point)"
+	rep.Rule = "symbolic execution of Graph.Stabilize and Graph.ParallelStabilize over go/ast with inlining, deferred calls in LIFO order, and up to " +
+		fmt.Sprint(maxFaults) + " panics injected per path wherever user code runs (node functions, handlers), recover() included; evaluations = paths explored, " +
+		"distinct = distinct paths that touch the status word (the ordinary ones folded into one program per entry point, each panicking one a program of its own)"
 	rep.Exhaustive = true
-	rep.CoqCases = len(entries)
 
-	// independent check of the extracted programs: two threads, all interleavings
+	// independent check: two calls, each on any of the extracted paths, all interleavings
+	type named struct {
+		fn, what, text string
+		prog           []action
+		faults         int
+	}
+	var all []named
 	for _, e := range entries {
-		if sched := overlapSchedule(e.Program, 2); sched != nil {
-			rep.AddViolation(hx.Violation{Property: "C19",
-				What: fmt.Sprintf("the status protocol extracted from Graph.%s, %s, lets two concurrent calls run node functions/handlers at the same time: "+
-					"interleaving %v of two callers (one atomic action each step) leaves both inside Work; neither gets ErrAlreadyStabilizing", e.Func, e.Text, sched),
-				Key:    "extracted-protocol:" + e.Func + ":overlap",
-				Replay: map[string]any{"kind": "protocol-schedule", "func": e.Func, "program": e.Program, "schedule": sched}})
+		all = append(all, named{e.Func, "the ordinary path of Graph." + e.Func, e.Text, e.Program, 0})
+	}
+	for _, e := range entries {
+		for _, f := range e.Faults {
+			how := "and the recover block swallows the panic"
+			if f.Escaped {
+				how = "and the panic leaves the call"
+			}
+			all = append(all, named{e.Func, fmt.Sprintf("the path of Graph.%s on which user code panics (%d panic(s)) %s", e.Func, f.Faults, how), f.Text, f.Program, f.Faults})
 		}
+	}
+	rep.CoqCases = len(all)
+	ordinary := all[:len(entries)]
+	byFaults := append([]named(nil), all...)
+	hasWork := func(n named) bool {
+		for _, a := range n.prog {
+			if a.Kind == "Work" {
+				return true
+			}
+		}
+		return false
+	}
+	sort.SliceStable(byFaults, func(i, j int) bool { // report the simplest scenario: fewest panics, a node function panicking first
+		if byFaults[i].faults != byFaults[j].faults {
+			return byFaults[i].faults < byFaults[j].faults
+		}
+		return hasWork(byFaults[i]) && !hasWork(byFaults[j])
+	})
+	reported := map[string]bool{}
+	for _, a := range byFaults {
+		var best []int
+		var with named
+		for _, b := range ordinary { // the other caller is an ordinary call
+			if sched := overlapSchedule(a.prog, b.prog); sched != nil && (best == nil || len(sched) < len(best)) {
+				best, with = sched, b
+			}
+		}
+		key := "extracted-protocol:" + a.fn + ":overlap"
+		if best == nil || reported[key] {
+			continue
+		}
+		reported[key] = true
+		rep.AddViolation(hx.Violation{Property: "C19",
+			What: fmt.Sprintf("the status protocol extracted from the Go source lets two calls run node functions/handlers at the same time. Caller 0 follows %s: %s; "+
+				"caller 1 follows %s: %s. Interleaving %v (one atomic action of the named caller per step) leaves both inside Work/Handlers; neither gets ErrAlreadyStabilizing",
+				a.what, a.text, with.what, with.text, best),
+			Key:    key,
+			Replay: map[string]any{"kind": "protocol-schedule", "func": a.fn, "caller0": a.prog, "caller1": with.prog, "schedule": best}})
 	}
 
 	if *coqOut != "" {
@@ -1968,6 +2286,17 @@ func main() {
 			b.WriteString(" *)\n")
 			fmt.Fprintf(&b, "Definition %s : list action := %s.\n\n", e.Coq, e.Text)
 		}
+		for _, e := range entries {
+			fmt.Fprintf(&b, "(* paths of Graph.%s on which a node function or a handler panics: the deferred functions run in reverse order,\n   the recover block included; a path that never releases gets a final Store 0 (a thread that stalls) *)\n", e.Func)
+			fmt.Fprintf(&b, "Definition %s_panic_paths : list (list action) := [", e.Coq)
+			for i, f := range e.Faults {
+				if i > 0 {
+					b.WriteString(";")
+				}
+				b.WriteString("\n  " + f.Text)
+			}
+			b.WriteString("].\n\n")
+		}
 		b.WriteString("Definition acquires_stabilize := Eval vm_compute in acquires_atomically extracted_stabilize.\n")
 		b.WriteString("Definition releases_stabilize := Eval vm_compute in releases_last extracted_stabilize.\n")
 		b.WriteString("Definition acquires_parallel := Eval vm_compute in acquires_atomically extracted_parallel.\n")
@@ -1978,8 +2307,12 @@ func main() {
 		b.WriteString("Definition overlap_stabilize := Eval vm_compute in overlap_witness extracted_stabilize (2 * length extracted_stabilize).\n")
 		b.WriteString("Definition overlap_parallel := Eval vm_compute in overlap_witness extracted_parallel (2 * length extracted_parallel).\n")
 		b.WriteString("Print same_as_check_then_store. Print overlap_stabilize. Print overlap_parallel.\n\n")
-		b.WriteString("Definition OK := Eval vm_compute in (acquires_atomically extracted_stabilize && releases_last extracted_stabilize && " +
-			"acquires_atomically extracted_parallel && releases_last extracted_parallel).\nPrint OK.\n")
+		b.WriteString("(* every path a call can take; C19_mutex_path_set applies when all of them are good *)\n")
+		b.WriteString("Definition all_paths : list (list action) :=\n  extracted_stabilize :: extracted_parallel :: extracted_stabilize_panic_paths ++ extracted_parallel_panic_paths.\n")
+		b.WriteString("Definition bad_paths := Eval vm_compute in filter (fun p => negb (good_path p)) all_paths.\nPrint bad_paths.\n")
+		b.WriteString("(* a bad path against the ordinary one: a schedule of two callers that puts both inside Work/Handlers *)\n")
+		b.WriteString("Definition bad_path_overlaps := Eval vm_compute in map (fun p => find_overlap2 p extracted_stabilize (length p + length extracted_stabilize) init []) bad_paths.\nPrint bad_path_overlaps.\n\n")
+		b.WriteString("Definition OK := Eval vm_compute in forallb good_path all_paths.\nPrint OK.\n")
 		if err := os.WriteFile(*coqOut, []byte(b.String()), 0o644); err != nil {
 			fmt.Fprintln(os.Stderr, err)
 			os.Exit(2)
@@ -1993,6 +2326,9 @@ func main() {
 	}
 	for _, e := range entries {
 		fmt.Printf("statusextract: Graph.%s = %s  (%d paths, %d touch the word)\n", e.Func, e.Text, e.Paths, e.Kept)
+		for _, f := range e.Faults {
+			fmt.Printf("statusextract:   panicking path: %s\n", f.Text)
+		}
 	}
 	fmt.Printf("statusextract: %d violations\n", len(rep.Violations))
 }
